@@ -97,6 +97,8 @@ func runC16(c *Case) {
 		regs := map[string]bool{}
 		handlerRuns := map[uint64]int{} // invocation request id -> handler entries
 		handlerCtxDone := map[uint64]bool{}
+		chunkGate := make(chan struct{})
+		var chunksSeen []int
 		wedged := false
 		var evOrder []int
 		evOverlap := false
@@ -191,6 +193,32 @@ func runC16(c *Case) {
 								handlerCtxDone[uint64(inv.Request)] = true
 								mu.Unlock()
 								return client.InvocationCanceled
+							}
+							if mode == "waitok" {
+								// a handler that reacts to the cancellation by returning an ordinary result
+								<-ctx.Done()
+								mu.Lock()
+								handlerCtxDone[uint64(inv.Request)] = true
+								mu.Unlock()
+								return client.InvokeResult{Args: wamp.List{"partial", inv.Request}}
+							}
+							if mode == "chunks" {
+								// a progressive call: the chunk number is the second argument; the first chunk is slow
+								n := -1
+								if len(inv.Arguments) > 1 {
+									k, _ := canon.AsID(inv.Arguments[1])
+									n = int(k)
+								}
+								if n == 0 {
+									<-chunkGate
+								}
+								mu.Lock()
+								chunksSeen = append(chunksSeen, n)
+								mu.Unlock()
+								if pr, _ := inv.Details["progress"].(bool); pr {
+									return client.InvokeResult{Err: wamp.InternalProgressiveOmitResult}
+								}
+								return client.InvokeResult{Args: wamp.List{"chunks-done"}}
 							}
 							return client.InvokeResult{Args: wamp.List{"handled", inv.Request}}
 						}, nil)
@@ -652,7 +680,14 @@ func runC16(c *Case) {
 				w.rtr.Send(&wamp.Invocation{Request: id, Registration: reg, Details: wamp.Dict{}, Arguments: wamp.List{"wait"}})
 				w.rtr.Send(&wamp.Interrupt{Request: id, Options: wamp.Dict{"mode": "killnowait"}})
 			}
+			// handlers that answer the cancellation with an ordinary result: ids 12..16 (interrupted below)
+			for id := wamp.ID(12); id <= 16; id++ {
+				w.rtr.Send(&wamp.Invocation{Request: id, Registration: reg, Details: wamp.Dict{}, Arguments: wamp.List{"waitok"}})
+			}
 			synctest.Wait()
+			for id := wamp.ID(12); id <= 16; id++ {
+				w.rtr.Send(&wamp.Interrupt{Request: id, Options: wamp.Dict{"mode": "killnowait"}})
+			}
 			w.rtr.Send(&wamp.Interrupt{Request: 5, Options: wamp.Dict{"mode": "killnowait"}})
 			w.rtr.Send(&wamp.Interrupt{Request: 99, Options: wamp.Dict{}})
 			synctest.Wait()
@@ -681,6 +716,12 @@ func runC16(c *Case) {
 			if early6 || !handlerCtxDone[6] {
 				c.Fail("CL5", "handler context does not end at the invocation's timeout", "INVOCATION 6 carried timeout=50 (ms): handler context done 10 ms after the invocation: %v, after 70 ms: %v (expected false, true)", early6, handlerCtxDone[6])
 			}
+			for id := uint64(12); id <= 16; id++ {
+				c.Hit("CL6")
+				if answers[id] != 1 {
+					c.Fail("CL6", "not exactly one final answer per invocation", "INVOCATION %d was interrupted and its handler then returned an ordinary result: client sent %d final YIELD/ERROR messages (handler context cancelled: %v)", id, answers[id], handlerCtxDone[id])
+				}
+			}
 			for id := uint64(7); id <= 11; id++ {
 				// the handler may not have been started at all when the INTERRUPT came (then the invocation is
 				// answered with ERROR right away); if it was started, its context must have been cancelled
@@ -707,6 +748,69 @@ func runC16(c *Case) {
 				c.Fail("CL5", "handler context not cancelled on INTERRUPT", "the handler of invocation 5 was not released after INTERRUPT")
 			}
 			mu.Unlock()
+			// ---- a progressive call whose chunks arrive in a burst while the handler is still busy with the first one
+			const nChunks = 40
+			go func() {
+				for k := 0; k < nChunks; k++ {
+					w.rtr.Send(&wamp.Invocation{Request: 200, Registration: reg, Details: wamp.Dict{"progress": true}, Arguments: wamp.List{"chunks", k}})
+				}
+				w.rtr.Send(&wamp.Invocation{Request: 200, Registration: reg, Details: wamp.Dict{}, Arguments: wamp.List{"chunks", nChunks}})
+			}()
+			synctest.Wait()
+			close(chunkGate)
+			synctest.Wait()
+			time.Sleep(10 * time.Millisecond)
+			synctest.Wait()
+			mu.Lock()
+			c.Hit("CL5")
+			want := make([]int, nChunks+1)
+			for k := range want {
+				want[k] = k
+			}
+			if fmt.Sprint(chunksSeen) != fmt.Sprint(want) {
+				c.Fail("CL5", "progressive invocation chunks lost or reordered", "%d progressive chunks and the final one arrived in a burst while the handler was busy with chunk 0; the handler saw %v", nChunks, chunksSeen)
+			}
+			mu.Unlock()
+			finals := 0
+			for _, m := range w.rtr.Take() {
+				if y, ok := m.Msg.(*wamp.Yield); ok && y.Request == 200 {
+					if pr, _ := y.Options["progress"].(bool); !pr {
+						finals++
+					}
+				}
+			}
+			c.Hit("CL6")
+			if finals != 1 {
+				c.Fail("CL6", "not exactly one final answer per invocation", "progressive invocation 200 (%d chunks): client sent %d final YIELDs", nChunks, finals)
+			}
+			// ---- the handler has returned its result, the transport is slow to take the YIELD, and an INTERRUPT arrives meanwhile
+			w.rtr.Pause()
+			synctest.Wait()
+			w.rtr.Send(&wamp.Invocation{Request: 201, Registration: reg, Details: wamp.Dict{}, Arguments: wamp.List{"plain"}})
+			synctest.Wait()
+			w.rtr.Send(&wamp.Interrupt{Request: 201, Options: wamp.Dict{"mode": "killnowait"}})
+			synctest.Wait()
+			w.rtr.Unpause()
+			synctest.Wait()
+			time.Sleep(10 * time.Millisecond)
+			synctest.Wait()
+			late := 0
+			for _, m := range w.rtr.Take() {
+				switch x := m.Msg.(type) {
+				case *wamp.Yield:
+					if x.Request == 201 {
+						late++
+					}
+				case *wamp.Error:
+					if x.Type == wamp.INVOCATION && x.Request == 201 {
+						late++
+					}
+				}
+			}
+			c.Hit("CL6")
+			if late != 1 {
+				c.Fail("CL6", "not exactly one final answer per invocation", "invocation 201: the handler had returned its result while the transport was not taking messages, then INTERRUPT arrived: client sent %d final YIELD/ERROR messages", late)
+			}
 		}
 		if len(subNames) > 0 {
 			sub := wamp.ID(7000 + nameID(subNames[0]))
